@@ -941,7 +941,31 @@ def rule_arms_answer_in_one_order(ctx: Ctx, rep: Report) -> None:
     rep.floor("C04.arms_answer_in_one_order", 1)
 
 
+def rule_scan_takes_outputs_in_order(ctx: Ctx, rep: Report) -> None:
+    """C04.scan_takes_outputs_in_order: BIP352's scan, and libsecp256k1's, walk the
+    outputs in order and take the first one that is P_k itself *or* P_k plus a
+    label. The Python arm does the same in one loop over the remaining outputs:
+    the direct test `candidate == output` is made inside that loop, beside the
+    label test -- a membership test of the candidate in the whole collection,
+    made first, prefers the unlabelled output wherever it stands, and the two
+    arms name different outputs when a labelled one precedes it."""
+    rule = "C04.scan_takes_outputs_in_order"
+    fi = ctx.func("btclib.silent_payments.scan_outputs")
+    loops = [lp for lp in own_nodes(fi.node) if isinstance(lp, ast.For) and isinstance(lp.iter, ast.Name) and isinstance(lp.target, ast.Name)
+             and any(isinstance(c, ast.Compare) and isinstance(c.ops[0], ast.Eq) and any(isinstance(x, ast.Name) and x.id == lp.target.id for x in ast.walk(c)) for c in ast.walk(lp))]
+    rep.ob(rule, "scan_outputs:direct_test_in_loop", bool(loops), fi.where(loops[0] if loops else None), "the direct match is tested output by output" if loops else
+           "no loop over the outputs compares the candidate with each output: the direct match is not taken in the outputs' order")
+    coll = {lp.iter.id for lp in own_nodes(fi.node) if isinstance(lp, ast.For) and isinstance(lp.iter, ast.Name)} | \
+           {lp.iter.body.id for lp in own_nodes(fi.node) if isinstance(lp, ast.For) and isinstance(lp.iter, ast.IfExp) and isinstance(lp.iter.body, ast.Name)}
+    short = [c for c in own_nodes(fi.node) if isinstance(c, ast.Compare) and isinstance(c.ops[0], ast.In) and isinstance(c.comparators[0], ast.Name) and c.comparators[0].id in coll and isinstance(c.left, ast.Name)]
+    rep.ob(rule, "scan_outputs:no_membership_shortcut", not short, fi.where(short[0] if short else None), "no membership shortcut over the whole collection" if not short else
+           f"`{norm(short[0])}` asks the whole collection at once: the unlabelled match is preferred wherever it stands")
+    rep.floor(rule, 2)
+
+
 RULES = [
+    ("C04.scan_takes_outputs_in_order", rule_scan_takes_outputs_in_order),
+
     ("C04.dispatch_honours_flags", rule_dispatch_honours_flags),
     ("C04.arms_answer_in_one_order", rule_arms_answer_in_one_order),
 
